@@ -59,6 +59,18 @@ impl fmt::Debug for JobQueue {
     }
 }
 
+#[cfg(desync_verif)]
+pub (super) fn verif_queue_snapshot(core: &JobQueueCore) -> String {
+    // state, job tags front first, condvars of blocked sync callers
+    let state = match core.state {
+        QueueState::WaitingForPoll(FutureId(id)) => format!("WaitingForPoll:{}", id),
+        other => format!("{:?}", other)
+    };
+    let jobs: Vec<String> = core.queue.iter().map(|job| format!("{:x}", &**job as *const dyn ScheduledJob as *const u8 as usize)).collect();
+    let waiters: Vec<String> = core.wake_blocked.iter().map(|cv| cv.upgrade().map(|cv| cv.verif_name()).unwrap_or_else(|| "x".to_string())).collect();
+    format!("{} [{}] [{}]", state, jobs.join(","), waiters.join(","))
+}
+
 impl JobQueue {
     ///
     /// Creates a new job queue 
